@@ -23,7 +23,7 @@ def parse(spec: str, ns: dict[str, str], root: str) -> Schema:
         pfx, _, local = tagpart.strip().partition(":")
         if pfx not in ns:
             raise AnalysisError(f"schema: unknown prefix {pfx}")
-        k = Kind(name, "{%s}%s" % (ns[pfx], local), childpart.split())
+        k = Kind(name, ("{%s}%s" % (ns[pfx], local)) if ns[pfx] else local, childpart.split())
         for extra in parts[1:]:
             key, _, val = extra.partition("=")
             if key.strip() not in ("text", "tail") or val.strip() not in ("vis", "excl"):
